@@ -52,6 +52,9 @@ structure State where
   joinCalled : Bool
   joinReturned : Bool
   live : List Nat := []            -- ghost: tasks whose increment of `_running` has not been undone yet
+  futReady : Nat → Bool := fun _ => false   -- the closure `invoke` received fulfils the promise right after the function returns
+  bornFor : Nat → Option Nat := fun _ => none   -- thread → the task whose `invoke` created it (`::std::thread(...)`)
+  subBy : Nat → Option Nat := fun _ => none     -- ghost: task → the thread that submitted it
 
 def upd {α : Type} (f : Nat → α) (i : Nat) (v : α) : Nat → α := fun j => if j = i then v else f j
 
@@ -107,8 +110,9 @@ def stepNewThread (s : State) (t : Nat) : Ev → Option State
     if !s.known id ∧ !s.rejected id then
       -- a task may submit further tasks; its own pc is restored by `accept`
       match s.npc t with
-      | .idle => some { s with npc := upd s.npc t (.nSub id none), known := upd s.known id true }
-      | .tRun par => some { s with npc := upd s.npc t (.nSub id (some par)), known := upd s.known id true }
+      | .idle => some { s with npc := upd s.npc t (.nSub id none), known := upd s.known id true, subBy := upd s.subBy id (some t) }
+      | .tRun par => some { s with npc := upd s.npc t (.nSub id (some par)), known := upd s.known id true,
+                                   subBy := upd s.subBy id (some t) }
       | _ => none
     else none
   | .inc old =>
@@ -116,9 +120,13 @@ def stepNewThread (s : State) (t : Nat) : Ev → Option State
     | .nSub id par =>
       if old = s.cnt then some { s with npc := upd s.npc t (.nSpawn id par), cnt := s.cnt + 1, live := id :: s.live } else none
     | _ => none
-  | .spawn _ =>
+  | .spawn u =>
     match s.npc t with
-    | .nSpawn id par => some { s with npc := upd s.npc t (.nRet id par), spawned := id :: s.spawned }
+    | .nSpawn id par =>
+      -- `::std::thread` creates a thread that has done nothing yet and was not created for another task
+      if s.npc u = .idle ∧ s.bornFor u = none then
+        some { s with npc := upd s.npc t (.nRet id par), spawned := id :: s.spawned, bornFor := upd s.bornFor u (some id) }
+      else none
     | .idle => some s
     | _ => none
   | .accept id =>
@@ -130,13 +138,16 @@ def stepNewThread (s : State) (t : Nat) : Ev → Option State
       else none
     | _ => none
   | .run id inp =>
-    if s.npc t = .idle ∧ id ∈ s.spawned ∧ inp then
+    -- the created thread runs the captured function of the `invoke` that created it
+    if s.npc t = .idle ∧ id ∈ s.spawned ∧ inp ∧ s.bornFor t = some id then
       some { s with npc := upd s.npc t (.tRun id), spawned := s.spawned.erase id,
                     runs := upd s.runs id (s.runs id + 1), ranOn := upd s.ranOn id (some t) }
     else none
   | .done id =>
     match s.npc t with
-    | .tRun id' => if id' = id then some { s with npc := upd s.npc t (.tDec id), done := upd s.done id true } else none
+    | .tRun id' =>
+      if id' = id then some { s with npc := upd s.npc t (.tDec id), done := upd s.done id true, futReady := upd s.futReady id true }
+      else none
     | _ => none
   | .dec old =>
     match s.npc t with
